@@ -222,6 +222,8 @@ def binop(op, a, b, spec=False):
     if op == '+' and (isinstance(a, Opaque) or isinstance(b, Opaque)) and \
             all(isinstance(x, (Opaque, str, SChar, SSeq)) for x in (a, b)):
         return Opaque('text')          # concatenation with an unmodelled text (number formatting): some text
+    if op == '-' and isinstance(a, Opaque) and isinstance(b, Opaque) and a.what == 'time' and b.what == 'time':
+        return Opaque('time')          # difference of two clock readings: some number nobody looks at
     # sequences
     if op == '+' and (is_seq(a) and is_seq(b)):
         return concat(a, b)
@@ -362,6 +364,10 @@ def absval(a):
             return mk(z3.If(a.e >= 0, a.e, -a.e), 'real')
         x = z3int(a)
         return mk(z3.If(x >= 0, x, -x), 'int')
+    if isinstance(a, SSeq) and a.kind == 'nd' and a.ek in ('int', 'real'):
+        j = z3.Int('j!abs')      # numpy: element-wise absolute value
+        x = z3.Select(a.arr, j + a.off)
+        return SSeq(LAM(j, z3.If(x >= 0, x, -x)), 0, a.n, 'nd', a.ek)
     return abs(a)
 
 
